@@ -258,13 +258,15 @@ pub struct DynAcc {
     pub ctx: Arc<Ctx>,
     /// setup creates nothing
     pub expect: bool,
+    /// the system does not override `System::setup`: being set up is counted where the data is
+    pub default_setup: bool,
 }
 
 impl Accessor for DynAcc {
     /// A default (empty) accessor exists; systems nevertheless report their own through
     /// `System::accessor()`, and that one is what setup and fetch must use.
     fn try_new() -> Option<Self> {
-        Some(DynAcc { sid: usize::MAX, reads: vec![], writes: vec![], rlog: vec![], wlog: vec![], ctx: Ctx::new(vec![], vec![]), expect: false })
+        Some(DynAcc { sid: usize::MAX, reads: vec![], writes: vec![], rlog: vec![], wlog: vec![], ctx: Ctx::new(vec![], vec![]), expect: false, default_setup: false })
     }
     fn reads(&self) -> Vec<ResourceId> {
         self.reads.iter().map(|k| k.rid()).collect()
@@ -309,7 +311,7 @@ impl<'a> DynamicSystemData<'a> for DynData<'a> {
     type Accessor = DynAcc;
 
     fn setup(acc: &DynAcc, world: &mut World) {
-        if acc.sid != usize::MAX {
+        if acc.sid != usize::MAX && acc.default_setup {
             acc.ctx.states[acc.sid].setup.fetch_add(1, Ordering::SeqCst);
         }
         if acc.expect {
@@ -390,6 +392,7 @@ impl DynSys {
                 wlog: writes.to_vec(),
                 ctx: ctx.clone(),
                 expect: false,
+                default_setup: false,
             },
             hint,
         }
@@ -495,6 +498,7 @@ impl<'a> System<'a> for DynSys {
     }
 
     fn setup(&mut self, world: &mut World) {
+        self.acc.ctx.states[self.acc.sid].setup.fetch_add(1, Ordering::SeqCst);
         <DynData as DynamicSystemData>::setup(&self.acc, world);
     }
 
